@@ -175,10 +175,23 @@ def r74(ctx, prog):
         facts = []
         for v, t in br:
             s = fmt(v)
+            src = 'peek' if 'peek' in s else ('next' if 'next' in s else '?')
             if s.startswith('binop:Eq('):
                 ch = v[2][1][1] if v[2][1][0] == 'c' else (v[2][0][1] if v[2][0][0] == 'c' else None)
-                src = 'peek' if 'peek' in s else ('next' if 'next' in s else '?')
                 facts.append((src, ch, is_true(t), 'into_iter' in s))
+            elif v[0] == 'proj' and src != '?' and t[0] == 'c' and isinstance(t[1], int) and not isinstance(t[1], bool) and v[2][-2:] == ('as Some', '0'):
+                # `match iter.peek() { Some('/') => ..` : a switch on the character itself
+                facts.append((src, chr(t[1]), True, 'into_iter' in s))
+        # a line comment skipped with Iterator::find(|&c| c == '\n') instead of a for loop
+        for e in eff:
+            if not e[0].startswith('<') and e[0].split('::')[-1] in ('find', 'position', 'any') and 'Iterator' in e[0] and len(e[2]) == 2 and e[2][1][0] == 'closure':
+                res = Interp(prog).apply_callable(e[2][1], [SYM('c')], 0)
+                rets = [r for r, _ in res[1]] if isinstance(res, tuple) and res and res[0] == 'paths' else []
+                for r in rets:
+                    if r[0] == 'app' and r[1] == 'binop:Eq' and SYM('c') in r[2]:
+                        other = [x for x in r[2] if x != SYM('c')]
+                        if other and other[0][0] == 'c':
+                            facts.append(('next', other[0][1], True, True))
         consumed = sum(1 for e in eff if not e[0].startswith('<') and e[0].split('::')[-1] == 'next')
         line = ('peek', '/', True, False) in facts
         star = ('peek', '*', True, False) in facts
@@ -186,6 +199,30 @@ def r74(ctx, prog):
         for src, ch, tv, in_for in facts:
             if in_for:
                 terminators.add(ch)
+        # a look-ahead character that was matched as part of a comment marker is consumed before the next look-ahead / the return
+        pending = None
+        unconsumed = []
+        for e in eff:
+            if e[0] == '<branch>':
+                v, t = e[2]
+                sv = fmt(v)
+                if 'peek' not in sv:
+                    continue
+                if sv.startswith('binop:Eq(') and is_true(t):
+                    pending = v[2][1][1] if v[2][1][0] == 'c' else (v[2][0][1] if v[2][0][0] == 'c' else '?')
+                elif v[0] == 'proj' and t[0] == 'c' and isinstance(t[1], int) and not isinstance(t[1], bool) and v[2][-2:] == ('as Some', '0'):
+                    pending = chr(t[1])
+            elif not e[0].startswith('<'):
+                nm = e[0].split('::')[-1]
+                if nm in ('next', 'find', 'position', 'any', 'nth', 'next_if', 'next_if_eq'):
+                    pending = None
+                elif nm == 'peek' and pending is not None:
+                    unconsumed.append(pending)
+                    pending = None
+        if pending is not None:
+            unconsumed.append(pending)
+        if ret == OK(C(True)):
+            ctx.check(not unconsumed, 'R7.4', 'marker-consumed', 'marker-left', 'every character matched as part of a comment marker is consumed (left in the input on an Ok(true) path: %s)' % unconsumed, span=f.span)
         if ret == OK(C(True)):
             n_true += 1
             ctx.check(line or (star and closed), 'R7.4', 'ok-true', 'unmatched-true', 'Ok(true) is returned only after `//` or after `/*` whose closing `*/` was found (facts %s)' % facts, span=f.span)
